@@ -30,16 +30,17 @@ def create_synced_records_both_sides(w: World, translated_path: str):
           "the write is a create at the translated path on the other side")
     if c.ok:
         info = c.result
-        check(len(provider_calls()) == 1, "nothing else is asked of the providers")
     else:
-        pcs = provider_calls()
-        check(len(pcs) == 3, "create, info_path, hash_data")
-        check(pcs[1].side == synced and pcs[1].method == "info_path" and pcs[1].args[0] == translated_path,
-              "what is in the way is looked up at the translated path on the other side")
-        check(pcs[2].side == synced and pcs[2].method == "hash_data", "the bytes are hashed with the other side's hash function")
-        info = pcs[1].result
-        check(info is not None, "something is in the way")
-        check(pcs[2].result == info.hash, "the object in the way is adopted only if it holds the same content")
+        info = None
+        same_content = False
+        for q in provider_calls():
+            if q.method == "info_path" and q.side == synced and q.args[0] == translated_path and q.ok:
+                info = q.result
+        check(info is not None, "what is in the way was looked up at the translated path on the other side, and is there")
+        for q in provider_calls():
+            if q.method == "hash_data" and q.side == synced and q.ok and q.result == info.hash:
+                same_content = True
+        check(same_content, "it is adopted only if it holds the same content, hashed with the other side's hash function")
     check(sync[synced].oid == info.oid, "the peer id is the created / adopted object's id")
     check(sync[synced].exists == EXISTS or sync[synced].exists == LIKELY_TRASHED
           or (sync[synced].exists == CORRUPT and sync[synced]._saved_exists in (EXISTS, LIKELY_TRASHED)),
@@ -66,14 +67,9 @@ def create_synced_fault_table(w: World, translated_path: str):
     r = mgr.create_synced(changed, sync, translated_path)
     check(len(provider_writes()) == 0, "the wrapper itself writes nothing")
     check(r == FINISHED or r == PUNT, "finished or punt")
-    pcs = provider_calls()
-    for c in pcs:
-        check(c.side == synced and c.method == "info_path" and c.args[0] == translated_path,
-              "the only provider call is a look-up of the translated path on the other side")
-    check(len(pcs) <= 1, "at most one look-up")
-    if len(pcs) == 1:
-        if pcs[0].ok and pcs[0].result is not None and r == PUNT:
-            check(sync[synced].oid == pcs[0].result.oid, "the object in the way becomes the entry's peer")
+    for c in provider_calls():
+        if c.method == "info_path" and c.side == synced and c.args[0] == translated_path and c.ok and c.result is not None and r == PUNT:
+            check(sync[synced].oid == c.result.oid, "the object in the way becomes the entry's peer")
             check(sync[synced].path == w.providers[synced].normalize_path_separators(translated_path), "at the translated path")
     if len(notifications()) > 0:
         check(r == FINISHED and sync.is_irrelevant, "a bad name is reported only when the entry is frozen as irrelevant and finished")
@@ -103,7 +99,7 @@ def handle_rename_effects(w: World, translated_path: str):
     for c in ws:
         check(c.side == synced, "writes only on the other side")
     if sp0 == translated_path:
-        check(len(provider_calls()) == 0 and r == FINISHED, "already there: nothing to do")
+        check(len(ws) == 0 and r == FINISHED, "already there: nothing to do")
     if len(ws) >= 1:
         check(ws[0].method == "rename" and ws[0].args[0] == peer and ws[0].args[1] == translated_path,
               "the first write renames the entry's own peer to the translated path")
@@ -194,9 +190,13 @@ def conflict_rename_only_renames(w: World, path: str):
     r = mgr.conflict_rename(side, path)
     pcs = provider_calls()
     ws = provider_writes()
-    check(len(pcs) >= 1 and pcs[0].method == "info_path" and pcs[0].side == side and pcs[0].args[0] == path,
-          "the object is looked up at the path on that side")
-    info = pcs[0].result
+    looked = False
+    info = None
+    for q in pcs:
+        if q.method == "info_path" and q.side == side and q.args[0] == path and not looked:
+            looked = True
+            info = q.result
+    check(looked, "the object is looked up at the path on that side")
     if info is None:
         check(len(ws) == 0, "nothing there: no write")
         check(r[0] is None and r[1] is None and r[2] is None, "and three Nones")
@@ -238,7 +238,7 @@ def path_change_or_creation_dispatch(w: World):
     cr = calls("create_synced")
     rn = calls("handle_rename")
     dl = calls("download_changed")
-    check(len(provider_calls()) == 0, "the dispatcher itself makes no provider call")
+    check(len(provider_writes()) == 0, "the dispatcher itself writes nothing to a provider")
     check(len(mk) + len(cr) + len(rn) <= 1, "at most one mirroring action")
     if tp is None:
         check(r == FINISHED and len(mk) + len(cr) + len(rn) + len(dl) == 0, "a path outside the translation is left alone")
@@ -268,14 +268,18 @@ def download_changed_reads_the_entrys_own_object(w: World):
     r = mgr.download_changed(changed, sync)
     pcs = provider_calls()
     check(len(provider_writes()) == 0, "no provider write")
-    check(len(pcs) <= 1, "at most one provider call")
+    dls = 0
     for c in pcs:
-        check(c.side == changed and c.method == "download" and c.args[0] == own, "a download of the entry's own object on the changed side")
+        if c.method == "download":
+            dls = dls + 1
+            check(c.side == changed and c.args[0] == own, "what is downloaded is the entry's own object on the changed side")
+    check(dls <= 1, "at most one download")
     check(r is True or r is False, "reports success or failure")
     if r is True:
         check(sync[changed].temp_file is not None and len(sync[changed].temp_file) > 0, "success: the content is in the recorded temp file")
         for c in pcs:
-            check(c.ok, "a failed download is never reported as success")
+            if c.method == "download":
+                check(c.ok, "a failed download is never reported as success")
 
 
 @lemma(props=["C12", "C02"], configs="none", raises=["Exception"])
@@ -293,12 +297,13 @@ def revivify_only_when_the_path_became_relevant(w: World):
     pcs = provider_calls()
     check(len(provider_writes()) == 0, "no provider write")
     for c in pcs:
-        check(c.method == "info_oid" and c.args[0] == oids[c.side], "only the entry's own ids are looked up")
+        if c.method == "info_oid":
+            check(c.args[0] == oids[c.side], "only the entry's own ids are looked up")
     if sync.ignored != ign0:
         check(irr0 and sync.ignored == IgnoreReason.NONE, "only an irrelevant entry is revived")
         revived = False
         for c in pcs:
-            if c.ok and c.result is not None and truthy(c.result.path) and mgr.translate(1 - c.side, c.result.path) is not None:
+            if c.method == "info_oid" and c.ok and c.result is not None and truthy(c.result.path) and mgr.translate(1 - c.side, c.result.path) is not None:
                 revived = True
         check(revived, "and only because a path reported by the provider translates to the other side")
     if not irr0:
@@ -318,7 +323,7 @@ def changed_side_missing_never_touches_the_survivor(w: World):
     prio = sync.priority
     s_oid, s_path, s_hash = sync[synced].oid, sync[synced].path, sync[synced].hash
     r = mgr.handle_changed_is_missing(sync, changed, synced)
-    check(len(provider_calls()) == 0, "no provider call at all")
+    check(len(provider_writes()) == 0, "no provider write at all")
     check(sync[synced].oid == s_oid and sync[synced].path == s_path and sync[synced].hash == s_hash and
           (sync[synced].exists == EXISTS) == survivor, "the other side's object is left as it is")
     if survivor and prio <= 4:
@@ -349,7 +354,7 @@ def hash_diff_downloads_then_uploads(w: World):
     r = mgr.handle_hash_diff(sync, changed, synced)
     dl = calls("download_changed")
     up = calls("upload_synced")
-    check(len(provider_calls()) == 0, "no direct provider call")
+    check(len(provider_writes()) == 0, "no direct provider write")
     check(len(dl) == 1 and dl[0].args[0] == changed and dl[0].args[1] is sync, "the changed side's content is fetched once")
     check(len(up) <= 1, "at most one upload")
     for c in up:
@@ -362,3 +367,30 @@ def hash_diff_downloads_then_uploads(w: World):
             check(not seen_upload, "fetch before upload")
     if r == FINISHED and len(calls("handle_corrupt")) == 0:
         check(len(up) == 1 and up[0].result is True, "finished only after a successful upload")
+
+
+@lemma(props=["C05", "C11"], configs="sides", raises=["Exception"],
+       stubs={"cloudsync.sync.manager:SyncManager.conflict_rename": {"results": ["triple"], "havoc": False}})
+def rename_to_fix_conflict_follows_the_moved_object(w: World, path: str):
+    """L5.5: after a conflict rename the state follows the object that was moved: the new id is recorded on the entry that
+    owned the old id on that side (the entry being synced, or whichever entry the index knows under the old id) and on no
+    other; nothing moved (no object at the path) changes nothing and reports False; no provider is written to here"""
+    mgr = w.mgr
+    sync = w.entry("sync")
+    side = w.changed
+    oid0 = sync[side].oid
+    ign0 = sync.ignored
+    r = mgr.rename_to_fix_conflict(sync, side, path, temp_rename=False)
+    cr = calls("conflict_rename")
+    check(len(provider_writes()) == 0, "no provider write besides the conflict rename itself")
+    check(len(cr) == 1 and cr[0].args[0] == side and cr[0].args[1] == path, "one conflict rename, of this path on this side")
+    old_oid, new_oid, new_name = cr[0].result[0], cr[0].result[1], cr[0].result[2]
+    if new_name is None:
+        check(r is False and sync[side].oid == oid0, "nothing was moved: nothing changes")
+    else:
+        check(r is True, "something was moved")
+        if old_oid == oid0:
+            check(sync[side].oid == new_oid, "the entry being synced owned the object: it records the new id")
+        else:
+            check(sync[side].oid == oid0 or sync[side].oid is None, "another object was moved: this entry keeps its id (unless ousted)")
+        check(sync.ignored == ign0, "an ordinary conflict rename never sets the entry aside")
